@@ -120,6 +120,7 @@ type Explorer struct {
 	replaced    map[*ssa.Function]value
 	inReplace   map[*ssa.Function]bool
 	SQLModel    bool
+	JSONModel   bool
 	sqlRows     map[*value]tuple
 	sqlCursors  map[*value]*sqlCursor
 	pending     []value
@@ -611,6 +612,7 @@ func (e *Explorer) resetPath(p []int) {
 	e.replaced = nil
 	e.inReplace = nil
 	e.SQLModel = false
+	e.JSONModel = false
 	e.sqlRows = nil
 	e.sqlCursors = nil
 	e.pending = nil
